@@ -305,23 +305,38 @@ func c02Reconfigure(c *Ctx, n gnode, count bool) {
 	flags := []struct {
 		name string
 		flip func(g *gnode)
-		call func(s stackage.Stack)
+		call func(s stackage.Stack, g gnode)
 	}{
-		{"SetFold()", func(g *gnode) { g.Fold = !g.Fold }, func(s stackage.Stack) { s.SetFold() }},
-		{"SetParen()", func(g *gnode) { g.Paren = !g.Paren }, func(s stackage.Stack) { s.SetParen() }},
-		{"SetNoPadding()", func(g *gnode) { g.NoPad = !g.NoPad }, func(s stackage.Stack) { s.SetNoPadding() }},
-		{"SetLeadOnce()", func(g *gnode) { g.Lonce = !g.Lonce }, func(s stackage.Stack) { s.SetLeadOnce() }},
+		{"SetFold()", func(g *gnode) { g.Fold = !g.Fold }, func(s stackage.Stack, _ gnode) { s.SetFold() }},
+		{"SetParen()", func(g *gnode) { g.Paren = !g.Paren }, func(s stackage.Stack, _ gnode) { s.SetParen() }},
+		{"SetNoPadding()", func(g *gnode) { g.NoPad = !g.NoPad }, func(s stackage.Stack, _ gnode) { s.SetNoPadding() }},
+		{"SetLeadOnce()", func(g *gnode) { g.Lonce = !g.Lonce }, func(s stackage.Stack, _ gnode) { s.SetLeadOnce() }},
 		// options that govern what may be stored or how positions are addressed: the rendering of what is
 		// already held must not notice them
-		{"SetNoNesting()", func(g *gnode) {}, func(s stackage.Stack) { s.SetNoNesting() }},
-		{"SetReadOnly()", func(g *gnode) {}, func(s stackage.Stack) { s.SetReadOnly() }},
-		{"SetNegativeIndices()", func(g *gnode) {}, func(s stackage.Stack) { s.SetNegativeIndices() }},
-		{"SetForwardIndices()", func(g *gnode) {}, func(s stackage.Stack) { s.SetForwardIndices() }},
+		{"SetNoNesting()", func(g *gnode) {}, func(s stackage.Stack, _ gnode) { s.SetNoNesting() }},
+		{"SetReadOnly()", func(g *gnode) {}, func(s stackage.Stack, _ gnode) { s.SetReadOnly() }},
+		{"SetNegativeIndices()", func(g *gnode) {}, func(s stackage.Stack, _ gnode) { s.SetNegativeIndices() }},
+		{"SetForwardIndices()", func(g *gnode) {}, func(s stackage.Stack, _ gnode) { s.SetForwardIndices() }},
 		// calls that are refused (no argument of a usable type) or have nothing to do with rendering
-		{"SetEncap('[' as a rune)", func(g *gnode) {}, func(s stackage.Stack) { s.SetEncap('[') }},
-		{"SetEncap(nil, 42)", func(g *gnode) {}, func(s stackage.Stack) { s.SetEncap(nil, 42) }},
-		{"SetEncap(3.5, struct{}{})", func(g *gnode) {}, func(s stackage.Stack) { s.SetEncap(3.5, struct{}{}) }},
-		{"SetID / SetCategory / SetAuxiliary", func(g *gnode) {}, func(s stackage.Stack) { s.SetID("an-id").SetCategory("a-category").SetAuxiliary() }},
+		{"SetEncap('[' as a rune)", func(g *gnode) {}, func(s stackage.Stack, _ gnode) { s.SetEncap('[') }},
+		{"SetEncap(nil, 42)", func(g *gnode) {}, func(s stackage.Stack, _ gnode) { s.SetEncap(nil, 42) }},
+		{"SetEncap(3.5, struct{}{})", func(g *gnode) {}, func(s stackage.Stack, _ gnode) { s.SetEncap(3.5, struct{}{}) }},
+		// two ways to the same configuration: the case-fold option toggled while a symbol hides the word, the
+		// symbol then put back as it was; no-padding toggled while the instance is parenthetical and back
+		{"SetSymbol(tmp); SetFold(); SetSymbol(as before)", func(g *gnode) { g.Fold = !g.Fold }, func(s stackage.Stack, g gnode) {
+			s.SetSymbol("tmp-symbol")
+			s.SetFold()
+			if g.Sym == "" {
+				s.SetSymbol()
+			} else {
+				s.SetSymbol(g.Sym)
+			}
+		}},
+		{"SetParen(); SetNoPadding(); SetParen()", func(g *gnode) { g.NoPad = !g.NoPad }, func(s stackage.Stack, g gnode) { s.SetParen(); s.SetNoPadding(); s.SetParen() }},
+		{"SetLeadOnce(true) twice; SetFold(true) twice", func(g *gnode) { g.Lonce, g.Fold = true, true }, func(s stackage.Stack, g gnode) {
+			s.SetLeadOnce(true).SetLeadOnce(true).SetFold(true).SetFold(true)
+		}},
+		{"SetID / SetCategory / SetAuxiliary", func(g *gnode) {}, func(s stackage.Stack, _ gnode) { s.SetID("an-id").SetCategory("a-category").SetAuxiliary() }},
 	}
 	size := len(n.String())
 	for _, tg := range targets {
@@ -342,11 +357,15 @@ func c02Reconfigure(c *Ctx, n gnode, count bool) {
 					g = &mod.Kids[tg.path]
 				}
 				texts[0], wants[0] = root.String(), n.ref()
-				fl.call(live)
+				fl.call(live, *g)
 				fl.flip(g)
 				texts[1], wants[1] = root.String(), mod.ref()
-				fl.call(live)
-				texts[2], wants[2] = root.String(), n.ref()
+				fl.call(live, *g)
+				if strings.Contains(fl.name, "twice") {
+					texts[2], wants[2] = root.String(), mod.ref() // idempotent: saying it again keeps it
+				} else {
+					texts[2], wants[2] = root.String(), n.ref()
+				}
 			})
 			if count {
 				c.Evals.Add(2)
@@ -521,7 +540,9 @@ func c02Trees(c *Ctx) []gnode {
 	conds := []gnode{cond("k", 1, lf("v")), cond("", 1, lf("v")), cond("k", 9, lf("v")), cond("n", 6, lf(7)), cond("k", 2, lf("日本 語")), cond("k\u00a0w", 2, lf("v\nw")),
 		cond("s", 3, gnode{T: "stack", Kind: "OR", Kids: []gnode{lf("a"), lf("b")}}),
 		{T: "cond", Kw: "p", Op: 4, Paren: true, Enc: 1, Kids: []gnode{lf("q")}}, {T: "cond", Kw: "p", Op: 5, NoPad: true, Paren: true, Kids: []gnode{lf("q")}},
-		cond("e", 1, lf(""))}
+		cond("e", 1, lf("")),
+		// an invalid Condition (no keyword; operator out of range) as the expression of a valid one: it contributes nothing
+		cond("outer", 1, cond("", 2, lf("v"))), cond("outer", 2, cond("k3", 9, lf("w"))), cond("outer", 3, cond("k4", 1, lf("")))}
 	var trees []gnode
 	// (0) every Go numeric kind, bool and a few float shapes as leaves and as Condition expressions
 	for _, v := range []any{int8(-8), int16(-300), int32(70000), int64(-1 << 40), uint(7), uint8(200), uint16(65535), uint32(1 << 31), uint64(1 << 63), float32(1.5), float32(1e10), float32(1.1), float32(0.1), float32(-9.378), 0.1, 1.1, 1e21, 1e-7, -0.5, 100000.0, 1234567.0,
